@@ -220,10 +220,16 @@ def apply_op(R, g, m, op):
             if kind == 'fresh': tg = [fresh_name(m, 10 + j) for j in range(len(src))]
             elif kind == 'cycle': tg = src[1:] + src[:1]
             elif kind == 'swap': tg = src[:2][::-1] + src[2:]
+            elif kind == 'quirk':                         # targets written the way the simulator prints them ('qq1 5' for 'qq105'):
+                tg = ['qq%d %d' % (1 + j // 10, j % 10) for j in range(len(src))]       # rename_blocks repairs such names by default
             elif kind == 'twins':                         # names that differ in the first character only (MINC derives names from the rest)
                 src = src[:2]; tg = ['Xzz 9', 'Yzz 9'][:len(src)]
             else: tg = src[1:] + [fresh_name(m, 3)]      # shift into a fresh name
             mp = dict(zip(src, tg))
+        from refs.incon_ref import quirk_repair
+        given = dict(mp)
+        mp = dict((quirk_repair(a), quirk_repair(b)) for a, b in mp.items())      # what the default fix_blocknames=True makes of the map
+        if mp != given: R.label('rename:names-needing-repair')
         mp = dict((a, b) for a, b in mp.items() if a != b)
         names = m.names()
         unren = set(n for n in names if n not in mp)
@@ -232,7 +238,7 @@ def apply_op(R, g, m, op):
         present = [s for s in mp if s in names]
         if not present: return g, None
         R.label('rename:' + ('overlapping' if set(mp.values()) & set(present) else 'disjoint'))
-        g.rename_blocks(dict(mp))
+        g.rename_blocks(dict((a, b) for a, b in given.items() if quirk_repair(a) != quirk_repair(b)))
         for b in m.blocks:
             if b[1] in mp: b[1] = mp[b[1]]
     elif k == 'reorder':
@@ -390,7 +396,7 @@ def alphabet(full):
         keep = [[[U[0], U[1]], [U[1], U[0]]], [[U[0], U[1]], [U[1], U[2]], [U[2], U[0]]], [[U[0], U[3]]],
                 [[U[1], U[2]], [U[2], U[3]]], [[U[0], U[1]], [U[1], U[3]]], [[U[2], U[3]]]]
         maps = keep
-    maps = maps + [[[U[0], 'Xzz 9'], [U[1], 'Yzz 9']]]
+    maps = maps + [[[U[0], 'Xzz 9'], [U[1], 'Yzz 9']], [[U[0], 'qq1 5'], [U[2], 'qq2 7']]]
     for mp in maps: A.append({'op': 'rename_blocks', 'map': mp})
     perms = list(itertools.permutations(range(4))) if full else [(3, 2, 1, 0), (1, 2, 3, 0), (0, 1, 2, 3)]
     for p in perms:
@@ -429,7 +435,7 @@ def op_strategy():
         st.builds(lambda a: {'op': 'redefine_rocktype', 'i': a}, i),
         st.builds(lambda a, b: {'op': 'rename_rocktype', 'i': a, 'j': b}, i, i),
         st.builds(lambda s, k: {'op': 'rename_blocks', 'src': s, 'kind': k}, small, st.sampled_from(['fresh', 'cycle', 'swap', 'shift'])),
-        st.builds(lambda s, k: {'op': 'rename_blocks', 'src': s, 'kind': k}, small, st.sampled_from(['cycle', 'swap', 'shift', 'twins'])),
+        st.builds(lambda s, k: {'op': 'rename_blocks', 'src': s, 'kind': k}, small, st.sampled_from(['cycle', 'swap', 'shift', 'twins', 'quirk'])),
         st.builds(lambda p, c, f: {'op': 'reorder', 'perm': p, 'cperm': c, 'flip': f},
                   st.one_of(st.sampled_from(['reverse', 'rotate', 'identity']), st.lists(st.integers(0, 40), unique=True, max_size=8)),
                   st.one_of(st.sampled_from(['reverse', 'rotate', 'identity']), st.lists(st.integers(0, 60), unique=True, max_size=8)),
